@@ -15,4 +15,5 @@ def obligations(tier):
     for (it, ot) in [(0, 0), (5, 6)]:
         obls.append(api_step(1, it, ot, 2, 2))
     obls += [o for o in kern_set(tier) if 'oirtight' not in o.name and 'hiprec' not in o.name]
+    obls += [plan_obl(0), plan_obl(1, 0)]      # planner pieces of cr.c (set_dft_length / dft_stage_init / validation prefix)
     return obls
